@@ -1018,9 +1018,13 @@ class Path:
         # x & (x - 1): power-of-two test
         d = simp(as_z3int(a) - as_z3int(b))
         if isinstance(d, int) and d in (1, -1):
-            big = a if d == 1 else b
-            # big & (big - 1) == clear lowest set bit: model via spec function lowbit
-            raise Unsupported('x & (x-1)')
+            big = as_z3int(a if d == 1 else b)
+            # big & (big - 1) clears the lowest set bit: big - 2^tz(big) for big > 0; 0 & -1 == 0
+            if self.branch(simp(big < 0), 'x&(x-1): x<0'):
+                raise Unsupported('x & (x-1) with negative x')
+            if self.branch(simp(big == 0), 'x&(x-1): x==0'):
+                return 0
+            return big - theory.pow2(theory.tz(big))
         raise Unsupported(f'symbolic & of {a} and {b}')
 
     def bitor(self, a, b):
